@@ -26,9 +26,10 @@ const (
 	vfReorder // delayed past the next datagrams
 	vfLate    // delayed past the retransmission timeout
 	vfRaceRto // arrives at the instant the receiving end's earliest retransmission timer expires (just before it is serviced)
+	vfFecLate // lost on the wire and rebuilt from parity 35 ms later: input with the packet type "recovered by FEC", after the datagrams that followed it
 )
 
-var vfFateNames = []string{"deliver", "drop", "dup", "reorder", "late", "race-rto"}
+var vfFateNames = []string{"deliver", "drop", "dup", "reorder", "late", "race-rto", "fec-recovered-late"}
 
 type vfSimCfg struct {
 	Mode       string // "session": flush after Send / on the interval flush returns / from Input; "update": Update at Check()
@@ -78,6 +79,7 @@ type vfEvent struct {
 	kind int // 0 deliver, 1 update, 2 resume reader
 	end  int
 	data []byte
+	fec  bool // the datagram did not arrive off the wire: the session's FEC decoder rebuilt it
 }
 
 type vfEvHeap []*vfEvent
@@ -123,6 +125,9 @@ type vfEnd struct {
 	lastUpd   int64
 	paused    bool
 	maxRto    uint32
+	// C04: the peer's advertised window, tracked independently: the window field of the last segment that arrived off the
+	// wire (packets rebuilt by FEC are older than what has been seen since and do not count)
+	modelRmt uint32
 }
 
 type vfSim struct {
@@ -204,7 +209,7 @@ func vfNewSim(cfg vfSimCfg) *vfSim {
 	refTime = vrt.Epoch0.Add(-time.Duration(cfg.Clk0) * time.Millisecond)
 	s.setClock()
 	for i := 0; i < 2; i++ {
-		en := &vfEnd{id: i, seen: map[uint32]int{}, updAt: -1, lastUpd: -1}
+		en := &vfEnd{id: i, seen: map[uint32]int{}, updAt: -1, lastUpd: -1, modelRmt: IKCP_WND_RCV}
 		en.k = NewKCP(0x11223344, func(buf []byte, size int) { s.onOutput(en, buf, size) })
 		en.k.WndSize(cfg.SndWnd[i], cfg.RcvWnd[i])
 		if cfg.Mtu != 0 && en.k.SetMtu(cfg.Mtu) != 0 {
@@ -333,6 +338,8 @@ func (s *vfSim) onOutput(en *vfEnd, buf []byte, size int) {
 		s.push(&vfEvent{t: s.now + d + 3, kind: 0, end: to, data: append([]byte(nil), data...)})
 	case vfReorder:
 		s.push(&vfEvent{t: s.now + d + 35, kind: 0, end: to, data: data})
+	case vfFecLate:
+		s.push(&vfEvent{t: s.now + d + 35, kind: 0, end: to, data: data, fec: true})
 	case vfLate:
 		s.push(&vfEvent{t: s.now + d + 450, kind: 0, end: to, data: data})
 	case vfRaceRto:
@@ -690,8 +697,18 @@ func (s *vfSim) run() {
 		case 0:
 			s.tracef("end%d receives %d bytes", en.id, len(ev.data))
 			p := s.pre(en)
-			r := en.k.Input(ev.data, IKCP_PACKET_REGULAR, s.cfg.AckNoDelay && !(en.id == 1 && s.cfg.AckNoDelayOnlyA))
-			s.post(en, p, true, "Input")
+			var pt PacketType = IKCP_PACKET_REGULAR
+			what := "Input"
+			if ev.fec {
+				pt, what = IKCP_PACKET_FEC, "Input(recovered by FEC)"
+			} else if segs, err := wire.ParseSegments(ev.data); err == nil && len(segs) > 0 {
+				en.modelRmt = uint32(segs[len(segs)-1].Wnd)
+			}
+			r := en.k.Input(ev.data, pt, s.cfg.AckNoDelay && !(en.id == 1 && s.cfg.AckNoDelayOnlyA))
+			s.post(en, p, true, what)
+			if en.k.rmt_wnd != en.modelRmt {
+				s.bad("C04:peer-window-is-not-the-last-one-advertised", "end %d assumes a peer window of %d after %s; the last datagram that arrived off the wire advertised %d", en.id, en.k.rmt_wnd, what, en.modelRmt)
+			}
 			if r != 0 {
 				s.bad("C01:genuine-packet-rejected", "Input rejected a genuine datagram with %d", r)
 			}
@@ -748,7 +765,7 @@ func (s *vfSim) outcome() string {
 		if len(f.Bytes()) >= s.cfg.K {
 			break
 		}
-		f.WriteByte("-xdrlt"[x])
+		f.WriteByte("-xdrltf"[x])
 	}
 	retr := 0
 	for i := 0; i < 2; i++ {
